@@ -13,17 +13,26 @@
 (* The sky position of a pixel is represented by its intermediate world coordinate CD.(pix - CRPIX),  *)
 (* doubled: the projection and CRVAL that follow are the same function before and after a flip, so    *)
 (* equal intermediate coordinates are equal sky positions.                                            *)
-(* State machine: the object under flip_parity / ensure_negative_parity calls, with the original kept *)
-(* as a history variable.                                                                             *)
+(*   nax   the NAXIS2 the WCS object records (wcs.pixel_shape; 0 = none).  It may differ from h (a     *)
+(*         cut-out reusing its parent frame's WCS); the flip mirrors about the image's own height h - *)
+(*         SkyUnchanged is what makes h the right number - so nax influences nothing.                 *)
+(*   peer  "none", or how a SECOND Image shares the first one's pixel buffer: "alias" (the same rows), *)
+(*         "tail" (rows 1..h-1), "head" (rows 0..h-2).  The buffer is never written by a flip (the    *)
+(*         flipped object re-binds to a reversed view), so a call on one object leaves the other one  *)
+(*         exactly as it was (NonInterference, BufferUntouched).                                      *)
+(* The sky position of a pixel ... (above).                                                           *)
+(* State machine: the object(s) under flip_parity / ensure_negative_parity calls, with the original   *)
+(* kept as a history variable.                                                                        *)
 EXTENDS Integers, Sequences, FiniteSets, TLC
 
-CONSTANTS Kinds, Widths, Heights, Headers, RefX, RefY, MaxHist
+CONSTANTS Kinds, Widths, Heights, Headers, RefX, RefY, RecY, Peers, MaxHist
 \* Headers: set of <<cdelt, pc>>;  RefX: set of doubled CRPIX1;  RefY: set of <<a, b>> meaning doubled CRPIX2 = a + b*h
+\* RecY: set of <<a, b>> meaning recorded NAXIS2 = a + b*h (<<0, 0>> = none);  Peers: subset of {"none", "alias", "tail", "head"}
 \* MaxHist = 0: no history is recorded (two to four states per case).  MaxHist = n > 0: every sequence of at most n calls is a
 \* behaviour of its own (hist = the calls made, trace = the specified object after each of them) and is handed to the harness.
-VARIABLES orig, cur, hist, trace
+VARIABLES orig, cur, peer, buf, hist, trace
 
-vars == <<orig, cur, hist, trace>>
+vars == <<orig, cur, peer, buf, hist, trace>>
 
 \* ------------------------------------------------------------------ the linear WCS
 CDof(cdelt, pc) == <<cdelt[1] * pc[1], cdelt[1] * pc[2], cdelt[2] * pc[3], cdelt[2] * pc[4]>>
@@ -60,25 +69,43 @@ Start(c) == LET id == [i \in 1..c.h |-> i - 1] IN
              rows |-> IF c.kind = "image" THEN id ELSE <<>>,
              pil |-> IF c.kind = "pil" THEN id ELSE <<>>]
 
-Cases == {[kind |-> k, w |-> w, h |-> h, cdelt |-> hd[1], pc |-> hd[2], p |-> <<rx, ry[1] + ry[2] * h>>] :
-              k \in Kinds, w \in Widths, h \in Heights, hd \in Headers, rx \in RefX, ry \in RefY}
+AllCases == {[kind |-> k, w |-> w, h |-> h, cdelt |-> hd[1], pc |-> hd[2], p |-> <<rx, ry[1] + ry[2] * h>>,
+              nax |-> rec[1] + rec[2] * h, peer |-> pr] :
+                 k \in Kinds, w \in Widths, h \in Heights, hd \in Headers, rx \in RefX, ry \in RefY, rec \in RecY, pr \in Peers}
+Cases == {c \in AllCases : c.peer = "none" \/ (c.kind = "image" /\ c.h >= 2)}
+
+\* the second Image over the same buffer: which buffer rows it wraps, and its own (independent) WCS object
+PeerFirst(c) == IF c.peer = "tail" THEN 1 ELSE 0
+PeerH(c) == IF c.peer = "alias" THEN c.h ELSE c.h - 1
+NoPeer == [cd |-> <<>>, p |-> <<>>, rows |-> <<>>, pil |-> <<>>]
+PeerStart(c) == IF c.peer = "none" THEN NoPeer
+                ELSE [cd |-> CDof(c.cdelt, c.pc), p |-> c.p, rows |-> [i \in 1..PeerH(c) |-> PeerFirst(c) + i - 1], pil |-> <<>>]
+HasPeer == orig.peer # "none"
 
 Pixels(c) == (0..(c.w - 1)) \X (0..(c.h - 1))
 \* a ring around the image too: the reference pixel may be outside, and off-image positions must not move either
 PixelsAndRing(c) == ((0 - 1)..c.w) \X ((0 - 1)..c.h)
-WorldTable(o, c) == [y \in 1..c.h |-> [x \in 1..c.w |-> World(o.cd, o.p, x - 1, y - 1)]]
+WorldTableH(o, w, h) == [y \in 1..h |-> [x \in 1..w |-> World(o.cd, o.p, x - 1, y - 1)]]
+WorldTable(o, c) == WorldTableH(o, c.w, c.h)
 Snapshot(o) == [cd |-> o.cd, p |-> o.p, rows |-> AsArray(o), pil |-> AsPil(o), sign |-> Sign(o.cd), det |-> Det(o.cd)]
 
-Init == orig \in Cases /\ cur = Start(orig) /\ hist = <<>> /\ trace = <<>>
+\* buf[i] = which original frame row the buffer holds in its physical row i-1: the identity, and it stays the identity
+Init == /\ orig \in Cases /\ cur = Start(orig) /\ peer = PeerStart(orig)
+        /\ buf = [i \in 1..orig.h |-> i - 1] /\ hist = <<>> /\ trace = <<>>
 Record(name) ==
     IF MaxHist = 0 THEN UNCHANGED <<hist, trace>>
     ELSE /\ Len(hist) < MaxHist
          /\ hist' = Append(hist, name)
-         /\ trace' = Append(trace, [snap |-> Snapshot(cur'), world |-> WorldTable(cur', orig)])
-FlipParity == cur' = Flip(cur, orig.h) /\ UNCHANGED orig /\ Record("flip")
-EnsureNegativeParity == cur' = Ensure(cur, orig.h) /\ UNCHANGED orig /\ Record("ensure")
-Touch == orig.kind = "pil" /\ cur' = Touched(cur) /\ UNCHANGED orig /\ Record("touch")
-Next == FlipParity \/ EnsureNegativeParity \/ Touch
+         /\ trace' = Append(trace, [snap |-> Snapshot(cur'), world |-> WorldTable(cur', orig),
+                                   psnap |-> IF HasPeer THEN Snapshot(peer') ELSE Snapshot(cur'),
+                                   pworld |-> IF HasPeer THEN WorldTableH(peer', orig.w, PeerH(orig)) ELSE <<>>])
+FlipParity == cur' = Flip(cur, orig.h) /\ UNCHANGED <<orig, peer, buf>> /\ Record("flip")
+EnsureNegativeParity == cur' = Ensure(cur, orig.h) /\ UNCHANGED <<orig, peer, buf>> /\ Record("ensure")
+Touch == orig.kind = "pil" /\ cur' = Touched(cur) /\ UNCHANGED <<orig, peer, buf>> /\ Record("touch")
+\* the same two operations called on the second Image
+FlipPeer == HasPeer /\ peer' = Flip(peer, PeerH(orig)) /\ UNCHANGED <<orig, cur, buf>> /\ Record("flipB")
+EnsurePeer == HasPeer /\ peer' = Ensure(peer, PeerH(orig)) /\ UNCHANGED <<orig, cur, buf>> /\ Record("ensureB")
+Next == FlipParity \/ EnsureNegativeParity \/ Touch \/ FlipPeer \/ EnsurePeer
 Spec == Init /\ [][Next]_vars
 
 HasData == orig.kind # "desc"
@@ -127,7 +154,27 @@ EnsureOK ==
         /\ Ensure(cur', orig.h) = cur'
         /\ (Sign(cur.cd) = -1 => cur' = cur) ]_vars
 \* ... "always": after every ensure_negative_parity call of every recorded history
-EnsureAlwaysNegative == \A i \in 1..Len(hist) : hist[i] = "ensure" => trace[i].snap.sign = -1
+EnsureAlwaysNegative == \A i \in 1..Len(hist) : /\ hist[i] = "ensure" => trace[i].snap.sign = -1
+                                                /\ hist[i] = "ensureB" => trace[i].psnap.sign = -1
+\* two Images over one buffer: each keeps every one of ITS pixels where it was on the sky, whatever is called on either;
+\* what each shows are rows of the (never written) buffer inside its own slice
+PeerSkyUnchanged ==
+    HasPeer =>
+        LET o == PeerStart(orig) IN
+        /\ \A x \in 0..(orig.w - 1), y \in 0..(PeerH(orig) - 1) :
+              World(peer.cd, peer.p, x, y) = World(o.cd, o.p, x, AsArray(peer)[y + 1] - PeerFirst(orig))
+        /\ {AsArray(peer)[i] : i \in 1..PeerH(orig)} = {buf[PeerFirst(orig) + i] : i \in 1..PeerH(orig)}
+        /\ {AsArray(cur)[i] : i \in 1..orig.h} = {buf[i] : i \in 1..orig.h}
+BufferUntouched == buf = [i \in 1..orig.h |-> i - 1]
+NonInterference ==
+    [][ /\ (FlipParity \/ EnsureNegativeParity \/ Touch) => peer' = peer
+        /\ (FlipPeer \/ EnsurePeer) => cur' = cur
+        /\ buf' = buf ]_vars
+PeerOK ==
+    [][ /\ FlipPeer => /\ Sign(peer'.cd) = 0 - Sign(peer.cd) /\ AsArray(peer') = Reverse(AsArray(peer))
+                       /\ \A x \in 0..(orig.w - 1), y \in 0..(PeerH(orig) - 1) :
+                             World(peer.cd, peer.p, x, y) = World(peer'.cd, peer'.p, x, PeerH(orig) - 1 - y)
+        /\ EnsurePeer => Sign(peer'.cd) = -1 /\ Ensure(peer', PeerH(orig)) = peer' ]_vars
 \* the space is what the property quantifies over: non-singular matrices only
 WellFormed == Det(Start(orig).cd) # 0 /\ Det(cur.cd) # 0
 
@@ -137,5 +184,8 @@ Report == LET f == Flip(cur, orig.h)  e == Ensure(cur, orig.h) IN
            flip |-> Snapshot(f), wflip |-> WorldTable(f, orig), flip2 |-> Snapshot(Flip(f, orig.h)),
            ensure |-> Snapshot(e), wensure |-> WorldTable(e, orig), ensure2 |-> Snapshot(Ensure(e, orig.h))]
 \* a complete call history: what was called and the specified object after every call
-HistoryReport == [orig |-> orig, start |-> Snapshot(Start(orig)), world |-> WorldTable(Start(orig), orig), hist |-> hist, trace |-> trace]
+HistoryReport == [orig |-> orig, start |-> Snapshot(Start(orig)), world |-> WorldTable(Start(orig), orig),
+                  pstart |-> IF HasPeer THEN Snapshot(PeerStart(orig)) ELSE Snapshot(Start(orig)),
+                  pworld |-> IF HasPeer THEN WorldTableH(PeerStart(orig), orig.w, PeerH(orig)) ELSE <<>>,
+                  pfirst |-> PeerFirst(orig), ph |-> PeerH(orig), hist |-> hist, trace |-> trace]
 =============================================================================
